@@ -476,3 +476,27 @@ def argname_scope(ctx, prefixes: tuple[str, ...], floor: int = 3) -> None:
     mods = [m for m in ctx.prog.modules if m.startswith(prefixes)]
     n = r_argname(ctx, resolver, ctx.prog.functions(mods))
     ctx.floor('R-ARGNAME', n, floor)
+
+
+# --------------------------------------------------------------------------------------------------
+# R-RAWCMP
+# --------------------------------------------------------------------------------------------------
+def r_rawcmp(ctx, tenv, funcs, rule: str = 'R-RAWCMP') -> int:
+    """Ordinal bounds (Optional[dsl.Native]) are opaque until cast to the ordinal column's kind: ordering them against each
+    other or anything else (<, <=, >, >=, min/max/sorted) in their raw representation interprets them in the wrong kind
+    ('8' > '12' as strings)."""
+    n = 0
+    for fn in funcs:
+        env = tenv.locals(fn)
+        for node in core.walk_local(fn.node):
+            if isinstance(node, ast.Compare) and any(isinstance(o, (ast.Lt, ast.LtE, ast.Gt, ast.GtE)) for o in node.ops):
+                for side in [node.left] + list(node.comparators):
+                    if is_native(tenv.expr_type(fn, side, env)):
+                        n += 1
+                        ctx.fail(rule, fn, f'raw ordinal bound `{core.src(side)}` is ordered in `{core.src(node)}` before being cast to the ordinal kind', node)
+                        break
+            elif isinstance(node, ast.Call) and core.call_name(node) in ('min', 'max', 'sorted'):
+                if any(is_native(tenv.expr_type(fn, a, env)) for a in node.args):
+                    n += 1
+                    ctx.fail(rule, fn, f'raw ordinal bounds ordered by `{core.src(node)}`', node)
+    return n
